@@ -22,15 +22,20 @@ Record run_obs := mkRun {
                           win rate, profit factor, drawdown values (timestamps excluded) *)
   r_nfills : N;
   r_pnl : Z;           (* realised PnL over all instruments, 1e-12 units *)
-  r_sum_ok : bool      (* the summary found at this run's POSITION = the repo's generators applied
+  r_sum_ok : bool;     (* the summary found at this run's POSITION = the repo's generators applied
                           to THIS backtest's own engine's final instrument / asset state, with
                           this backtest's id and risk-free rate (distinct per backtest) *)
+  r_clock_ok : bool    (* every fill this engine processed is stamped (minute resolution) by this
+                          backtest's own clock: the latest market time its engine had processed
+                          (paced feed) / within [first dataset time, latest processed] (plain) *)
 }.
 
 Record case := mkCase {
   c_paced : bool;            (* paced feed (fills deterministic) or plain MarketDataInMemory *)
   c_fatal : option N;        (* dataset position of the market event whose tick is fatal *)
   c_ds : list Z;             (* the dataset, as event codes *)
+  c_intact : bool;           (* the one dataset Vec shared (Arc) by all backtests of the case is
+                                byte-for-byte what it was before the runs *)
   c_nbt : N;                 (* number of backtests *)
   c_runs : list run_obs }.
 
@@ -109,6 +114,7 @@ Definition corr_positions (c : case) : bool :=
                 [] (c_runs c)).
 
 Definition corr_b (c : case) : bool :=
+  c_intact c &&     (* the model's dataset is a value: no run can change it *)
   forallb (corr_run (c_fatal c) (c_ds c)) (c_runs c) &&
   (match c_runs c with [] => true | _ => corr_positions c end).
 
@@ -142,14 +148,15 @@ Definition run_hard (c : case) (r : run_obs) : bool :=
   match c_fatal c with
   | None =>
       N.eqb (r_outcome r) 0 && list_eqb Z.eqb (market_codes (r_log r)) (c_ds c) && r_sum_ok r &&
-      N.eqb (r_pos_id r) (r_bt r)
+      N.eqb (r_pos_id r) (r_bt r) && r_clock_ok r
   | Some _ =>
       (N.eqb (r_outcome r) 0 || N.eqb (r_outcome r) 2) &&
       is_prefix (market_codes (r_log r)) (c_ds c) &&
       (negb (N.eqb (r_outcome r) 0) || (r_sum_ok r && N.eqb (r_pos_id r) (r_bt r)))
   end.
 
-Definition hard_b (c : case) : bool := batches_complete c && forallb (run_hard c) (c_runs c).
+Definition hard_b (c : case) : bool :=
+  c_intact c && batches_complete c && forallb (run_hard c) (c_runs c).
 
 (** isolation part: a backtest run inside a concurrent batch has the fills, final positions,
     balances and realised PnL it has when run alone *)
